@@ -23,6 +23,7 @@ from xmlschema.arguments import BooleanOption, BaseUrlOption, AllowOption, \
     ValidationOption, LogLevelOption
 from xmlschema.utils.decoding import raw_encode_value, raw_encode_attributes
 from xmlschema.utils.etree import is_etree_element, is_etree_document
+from xmlschema.utils.urls import is_local_url
 from xmlschema.resources import XMLResource
 from xmlschema.converters import XMLSchemaConverter, ConverterOption, ConverterType
 from xmlschema.loaders import SchemaLoader, LoaderClassOption
@@ -270,6 +271,11 @@ class SchemaSettings(ResourceSettings):
             elif 'lxml' in source.iterparse.__module__:
                 msg = _("schemas can't be built using lxml.etree library")
                 raise XMLResourceError(msg)
+            elif self.allow == 'sandbox' and base_url is None and self.base_url is None \
+                    and not is_local_url(source.base_url):
+                # Without a base the locations reached from the schema are not confined
+                raise XMLSchemaValueError("block access to files out of sandbox requires"
+                                          " 'base_url' to be set or a local source URL")
             return source
 
         return XMLResource(
